@@ -227,6 +227,7 @@ func makeDocs(c *fw.Ctx, n int) (docs []docFile, bad []docFile) {
 				g = pdfw.GenDoc(r, pdfw.DocOpts{MinPages: 3, MaxPages: 5, MaxLines: 8, MaxFonts: 3, TreeDepth: 2, Inherit: []string{"root", "parent"}[i/12%2], NoEmptyPages: true, FontWidths: true})
 				lay.Forms, lay.FontNameRot, lay.FontsDirect, lay.ResIndirect = true, true, i%12 == 9, false
 			}
+			lay.InfoUTF16 = i%2 == 0 // document metadata in UTF-16 (read by Document / Chunks / ToMarkdown)
 			b := pdfw.Build(r.Int63(), lay, []*pdfw.Doc{g.Doc})
 			data, ext, kind, desc = b.Bytes, ".pdf", "pdf", fmt.Sprintf("pdf %d pages filter=%s xref=%v", len(g.Doc.Leaves()), lay.Filter, lay.XRef)
 		}
@@ -734,6 +735,11 @@ func dynamic(rq dynReq) *dynResp {
 			for k := 2 + r.Intn(4); k > 0; k-- {
 				d := own[r.Intn(len(own))]
 				ops := opsFor(d.Kind)
+				if round%4 == 3 {
+					// every fourth round: only the operations that also read the document's
+					// metadata (title, author …), on all goroutines at once
+					ops = []string{"document", "chunks-json", "markdown", "chunks-jsonl"}
+				}
 				plans[gi] = append(plans[gi], step{d, ops[r.Intn(len(ops))]})
 			}
 			if r.Intn(4) == 0 { // one goroutine also chews on a failing input
